@@ -890,6 +890,7 @@ def rekey(ctx, chk, only=None):
         chk.instance('R-REKEY', short(f), 'scroll iff on the %s margin; cursor row untouched when scrolling' % edge, cnt > 0 and not bad,
                      detail='; '.join(bad[:3]) or '%d exit states' % cnt, span=prog.bodies[f].span, what='; '.join(bad[:2]))
         # re-keying inside the scroll branch: every row stored in the new map comes from the documented source row
+        once_ok, once_why = removes_once(ctx, sr, eng, f, scope_f)
         agg = {}
         for e in sr['events']:
             ev = e['ev']
@@ -906,6 +907,9 @@ def rekey(ctx, chk, only=None):
             src = None
             if isinstance(pv, tuple) and pv[0] == 'clone' and pv[2] and len(pv[2]) >= 3 and isinstance(pv[2][2], tuple):
                 src = pv[2][2][1]
+            elif once_ok and isinstance(pv, tuple) and pv[0] == 'removed' and len(pv) > 2 and pv[1] == ('S', 'buffer') and isinstance(pv[2], NumV):
+                # moved out of the old grid instead of copied: the same row, provided no row is taken twice (removes_once)
+                src = pv[2]
             inside = eng.prove_le(st, top, key) is True and eng.prove_le(st, key, bottom) is True
             outside = eng.prove_cmp(st, 'lt', key, top) is True or eng.prove_cmp(st, 'gt', key, bottom) is True
             ok = False
@@ -922,8 +926,8 @@ def rekey(ctx, chk, only=None):
                     if e2[0] == 'branch' and e2[1] in ('map.get.none', 'map.get.some', 'map.remove.none', 'map.remove.some') and e2[2] == ('S', 'buffer'):
                         last = e2
                         break
-                if last is not None and last[1] == 'map.get.none' and isinstance(last[3], NumV) and isinstance(getattr(v, 'prov', None), tuple) \
-                        and v.prov and v.prov[0] in ('default', 'new'):
+                if last is not None and (last[1] == 'map.get.none' or (once_ok and last[1] == 'map.remove.none')) and isinstance(last[3], NumV) \
+                        and isinstance(getattr(v, 'prov', None), tuple) and v.prov and v.prov[0] in ('default', 'new'):
                     src = last[3]
             if isinstance(v, CollV) and v.known == () and src is None:
                 vac = bottom if meth == 'index' else top
@@ -949,6 +953,49 @@ def rekey(ctx, chk, only=None):
         for (ff, c), a in sorted(agg.items()):
             chk.instance('R-REKEY', ff, c, a['ok'], detail=a['why'] or '%d visits' % a['n'], span=a['span'], what=a['why'])
         chk.floor('%s re-keying sites' % meth, len(agg), 1)
+
+
+def removes_once(ctx, sr, eng, f, scope_f):
+    """no row of the old grid is taken out twice while f runs - then reading a row by `remove` is reading the row the
+    grid had on entry.  Decided structurally on the abstract run: every `remove` on the rows uses the element (plus a
+    constant) of a range loop - one key per iteration - that is not nested in another loop, and the key intervals of
+    different remove sites are pairwise disjoint.  -> (ok, why)"""
+    from .values import IterV
+    prog = ctx.prog
+    sites = {}
+    for e in sr['events']:
+        ev = e['ev']
+        if e['func'] not in scope_f or e['ep'] != f or ev[0] != 'map.remove' or tuple(ev[1]) != ('S', 'buffer'):
+            continue
+        st = e['st']
+        k = ev[2]
+        if not isinstance(k, NumV) or k.sym is None:
+            return False, 'a row is removed under a key that is not the element of a loop (%r)' % (k,)
+        it = st.vn.get(('itersym', k.sym))
+        if not (isinstance(it, IterV) and it.kind == 'range' and g.elementwise(tuple(o[0] for o in it.ops))
+                and isinstance(it.args[0], NumV) and isinstance(it.args[1], NumV)):
+            return False, 'a row is removed under a key that is not the element of a plain range'
+        body = prog.bodies.get(e['func'])
+        inl = [h for h, blks in body.loops()[0].items() if e['bb'] in blks] if body is not None else []
+        if len(inl) != 1:
+            return False, 'a row is removed inside %d nested loops' % len(inl)
+        lo, hi, incl = it.args
+        hi_x = NumV(hi.sym, hi.k + (1 if incl else 0) + k.k, hi.ty)
+        lo_x = NumV(lo.sym, lo.k + k.k, lo.ty)
+        sites.setdefault(e['entry'], {}).setdefault((e['func'], e['bb']), []).append((st, lo_x, hi_x))
+    for entry, per in sites.items():
+        keys = sorted(per)
+        for i in range(len(keys)):
+            for j in range(i + 1, len(keys)):
+                ok = False
+                for (sa, loa, hia) in per[keys[i]][:3]:
+                    for (sb, lob, hib) in per[keys[j]][:3]:
+                        for s_ in (sa, sb):
+                            if eng.prove_le(s_, hia, lob) is True or eng.prove_le(s_, hib, loa) is True:
+                                ok = True
+                if not ok:
+                    return False, 'two loops may take the same row out of the old grid'
+    return True, ''
 
 
 def ildl_region(ctx, chk):
